@@ -52,7 +52,7 @@ def base_script(rng):
 
 def make_case(rng):
     cls = rng.choice(["unknown_key", "double_alias", "missing", "wrong_dim", "unit_symbol", "unit_text", "grid_size", "env_map", "choice",
-                      "env_names", "grid_pos", "graph_pos", "species_ref", "cg_map"])
+                      "env_names", "grid_pos", "graph_pos", "species_ref", "cg_map", "wrong_dim_item", "wrong_dim_item"])
     faulty = rng.random() < 0.7
     c, d = base_script(rng)
     case = {"cls": cls, "faulty": faulty, "dict": d, "sim": c}
@@ -159,6 +159,23 @@ def make_case(rng):
         from . import c16
         cc = c16.make_case(rng, "quick")
         case["cg"] = cc
+    elif cls == "wrong_dim_item":
+        # an array-valued field given element by element, one element being a quantity of its own
+        field = rng.choice(["t_sample", "state", "unitarray"])
+        good = {"t_sample": [0, 1, 0], "state": [0, 0, 1], "unitarray": [rng.randint(-2, 2) for _ in range(3)]}[field]
+        dim = list(good)
+        if faulty:
+            while tuple(dim) == tuple(good) or not any(dim):
+                dim = list(good)
+                dim[rng.randrange(3)] += rng.choice([-2, -1, 1, 2, 3])
+        usys = sysgen.rand_sys(rng)
+        same_system = rng.random() < 0.6          # the element is written in the very units system of the array
+        case.update({"field": field, "given": dim, "expected": good, "array_units": usys, "item_units": usys if same_system else sysgen.rand_sys(rng),
+                     "position": rng.randrange(3), "faulty": tuple(dim) != tuple(good)})
+        if not any(dim):
+            case["given"] = case["expected"] = good = [0, 1, 0]
+            case["field"] = "t_sample"
+            case["faulty"] = False
     return case
 
 
@@ -245,6 +262,26 @@ def observe(case):
         if op == "get_chemostat":
             return run(lambda: system.get_chemostat(sp_ref, pos), snap)
         return run(lambda: system.set_chemostat(sp_ref, pos, 1), snap)
+    if cls == "wrong_dim_item":
+        mk = lambda sy, dim: U.Units(sysgen.py_sys(U, sy), U.UnitsDimensions(space=dim[0], time=dim[1], quantity=dim[2]))
+        item = U.UnitValue(2.0, mk(case["item_units"], case["given"]))
+        if case["field"] == "unitarray":
+            vals = [1.0, 2.0, 3.0]
+            vals[case["position"]] = item
+            return run(lambda: U.UnitArray(vals, mk(case["array_units"], case["expected"])))
+        system = strengths.RDSystem(network=strengths.RDNetwork(species=[strengths.Species("A")], reactions=[]), space=strengths.RDGridSpace(w=3),
+                                    units_system=sysgen.py_sys(U, case["array_units"]))
+        if case["field"] == "state":
+            vals = [1.0, 2.0, 3.0]
+            vals[case["position"]] = item
+            snap = lambda: [float(v) for v in system.state.value]
+
+            def f():
+                system.state = vals
+            return run(f, snap)
+        vals = [0.0, 1.0, 2.0]
+        vals[case["position"]] = item
+        return run(lambda: strengths.RDScript(system=system, t_sample=vals, units_system=sysgen.py_sys(U, case["array_units"])))
     if cls == "cg_map":
         from . import c16
         o = c16.observe(case["cg"])
@@ -258,7 +295,7 @@ def emit(case, o):
         gc = "(KKeys schema_%s %s)" % (case["kind"], g_strs(case["keys"]))
     elif cls == "missing":
         gc = "(KMissing %s %s)" % (g_strs(case["mandatory"]), g_strs(case["keys"]))
-    elif cls == "wrong_dim":
+    elif cls in ("wrong_dim", "wrong_dim_item"):
         gc = "(KDim %s %s)" % (si.g_dim(case["given"]), si.g_dim(case["expected"]))
     elif cls == "unit_symbol":
         gc = "(%s %s)" % ({"space": "KSpaceSym", "time": "KTimeSym", "quantity": "KAmountSym"}[case["field"]], g_str(case["sym"]))
